@@ -869,6 +869,21 @@ def fam_e(b, thorough):
             lt = G.has_lt(x) or G.has_lt(y)
             td = tdecl(b.sname("Fp"), "struct", lt, [("x", x), ("y", y)])
             _struct_uses(b, td, "e", "field pair", wraps=(x == y))
+    # field triples: a narrow field, a composite one (size not a multiple of the next field's alignment), a wide one - the layouts
+    # with padding after a composite field
+    for x in (P("u8"), P("u32")):
+        for y in (("ffi", "DiplomatStrSlice<'a>", "bslice"), N("St"), ("dopt", P("u8")), ("dopt", N("St")), N("En")):
+            for z in (P("f64"), P("u16"), P("u64")):
+                lt = G.has_lt(y)
+                td = tdecl(b.sname("Ft"), "struct", lt, [("x", x), ("y", y), ("z", z)])
+                b.add("e", types=[td], pos="field triple:alone")
+                b.add("e", types=[td], m=method(b.mname(), params=[("x", fresh(td["name"], "struct", lt))]), pos="field triple:as param")
+    # two types whose names differ only in letter case (distinct files on a case-sensitive file system)
+    for kind in ("opaque", "struct", "enum"):
+        n = b.sname("Case")
+        ta = tdecl(n + "ab", kind, False, [("a", P("u8"))] if kind == "struct" else ())
+        tb = tdecl(n + "AB", kind, False, [("a", P("u8"))] if kind == "struct" else ())
+        b.add("e", types=[ta, tb], pos="names differing in case")
     for x in OUT_ALPHA:
         for y in OUT_ALPHA:
             lt = G.has_lt(x) or G.has_lt(y)
